@@ -20,4 +20,4 @@ ASSUMPTIONS = ["floating-point products of two symbolic operands and math.Pow ar
 EXPLANATION = ""
 CLAIMED = True
 LEVEL_TEXT = "Bounded model checking of one inductive step of the real Pll.Do from an arbitrary state satisfying the invariant (mode <= 3, gains in range, finite integrator), per start-up stage and for the epoch-change case, with arbitrary offset (all int64), weight and clock reading: when and by how much Step is called, that tracking never steps, that Adjust gets a positive duration equal to the elapsed whole seconds, a slew within +-500 ppm of it and a finite frequency, and that an epoch change restarts start-up are decided by SMT."
-LEVEL_NOTE = "floating point: products/quotients with constants exact, symbolic products and math.Pow uninterpreted with sound IEEE facts, timemath.Duration and Duration.Seconds summarised as monotone sign-preserving functions (the slew bound is stated through that conversion; the integer-nanosecond form with exact IEEE arithmetic was tried and is undecided in 600 s); clock non-decreasing within an epoch; logging ignored."
+LEVEL_NOTE = "floating point: products/quotients with constants exact, symbolic products and math.Pow uninterpreted with sound IEEE facts, timemath.Duration and Duration.Seconds summarised as monotone sign-preserving functions (the slew bound is stated through that conversion; the integer-nanosecond form with exact IEEE arithmetic was tried and is undecided in 600 s); clock non-decreasing within an epoch; NaN weights are covered in the start-up modes only (a NaN weight is not above 3), the gain / integrator / frequency clauses are claimed for weights that are numbers; logging ignored."
